@@ -11,6 +11,7 @@ import itertools
 import json
 import pickle
 import resource
+import shutil
 import multiprocessing
 import os
 import signal
@@ -291,6 +292,15 @@ def fresh_digests(prop_id, tier, base_seed, count, hashseed):
 
 
 def print_digests(prop_id, tier, base_seed, count):
+    scratch = "/dev/shm/verif-scratch-%d" % os.getpid()
+    os.environ["VERIF_SCRATCH"] = scratch
+    try:
+        return _print_digests(prop_id, tier, base_seed, count)
+    finally:
+        shutil.rmtree(scratch, ignore_errors=True)
+
+
+def _print_digests(prop_id, tier, base_seed, count):
     prop = load_prop(prop_id)
     digests = {}
     for index in range(count):
@@ -301,6 +311,15 @@ def print_digests(prop_id, tier, base_seed, count):
 
 
 def replay(prop_id, path):
+    scratch = "/dev/shm/verif-scratch-%d" % os.getpid()
+    os.environ["VERIF_SCRATCH"] = scratch
+    try:
+        return _replay(prop_id, path)
+    finally:
+        shutil.rmtree(scratch, ignore_errors=True)
+
+
+def _replay(prop_id, path):
     prop = load_prop(prop_id)
     with open(path, "r", encoding="utf-8") as stream:
         stored = json.load(stream)
@@ -324,6 +343,15 @@ def replay(prop_id, path):
 
 
 def run_check(prop_id, tier, base_seed):
+    scratch = "/dev/shm/verif-scratch-%d" % os.getpid()
+    os.environ["VERIF_SCRATCH"] = scratch
+    try:
+        return _run_check(prop_id, tier, base_seed)
+    finally:
+        shutil.rmtree(scratch, ignore_errors=True)
+
+
+def _run_check(prop_id, tier, base_seed):
     started = time.time()
     prop = load_prop(prop_id)
     workers = int(os.environ.get("VERIF_WORKERS", "16"))
